@@ -1,9 +1,8 @@
 (* The single entry point of the executable model: one S-expression in, one out. *)
 From Coq Require Import String.
-From Morph Require Import Base.UStr Base.Sexp Gen.Tables Model.SqlTypes Model.Spec20.
+From Morph Require Import Base.UStr Base.Sexp Gen.Tables Model.SqlTypes Model.Spec20 Model.Terms Model.Data Model.Engine
+  Model.Mapping Model.Partition Model.Spec Model.Wire.
 Local Open Scope N_scope.
-
-Definition tag_is (t : ustr) (s : string) : bool := ueqb t (u s).
 
 Definition run_c20 (tag : ustr) (args : list sexp) : option sexp :=
   if tag_is tag "c20.lookup" then
@@ -20,10 +19,67 @@ Definition run_c20 (tag : ustr) (args : list sexp) : option sexp :=
     end
   else None.
 
+(* ---- mapping family *)
+Definition engine_lines (c : ccfg) (srcs : list source) (d : document) : result (list ustr) :=
+  rdo rules <- normalise d;
+  materialize_rules (to_ecfg c) rules (case_get_data c srcs).
+Definition spec_case_lines (c : ccfg) (srcs : list source) (d : document) : list ustr :=
+  spec_lines (to_scfg c) d (case_tables srcs).
+
+Definition sx_mkind (k : mkind) : sexp :=
+  A (match k with KConst => u "const" | KTempl => u "templ" | KRef => u "ref" | KQuoted => u "quoted" | KParent => u "parent"
+              | KExec => u "exec" | KNone => u "none" end).
+Definition sx_ttype (t : ttype) : sexp :=
+  A (match t with TIri => u "iri" | TBnode => u "bnode" | TLit => u "lit" | TStar => u "star" | TNone => u "" end).
+Definition sx_ld (k : ldkind) : sexp := A (match k with LDNone => u "" | LDLang => u "lang" | LDDt => u "dt" end).
+Definition sx_joins (j : list (ustr * ustr)) : sexp := L (map (fun cp => L [A (fst cp); A (snd cp)]) j).
+Definition sx_rule (r : rule) : sexp :=
+  L [A (r_id r); A (r_tm r); A (r_src r); sx_bool (r_asserted r);
+     sx_mkind (r_sk r); A (r_sv r); sx_ttype (r_stt r); sx_mkind (r_pk r); A (r_pv r);
+     sx_mkind (r_ok r); A (r_ov r); sx_ttype (r_ott r); sx_ld (r_ld r); sx_mkind (r_ldk r); A (r_ldv r);
+     sx_mkind (r_gk r); A (r_gv r); sx_joins (r_sjoin r); sx_joins (r_ojoin r)].
+Definition sx_labels (l : option (list (ustr * label))) : sexp :=
+  match l with
+  | None => L [A (u "error"); A (u "Other")]
+  | Some labs => L [A (u "ok"); L (map (fun il => L [A (fst il); L (map sx_nat (snd il))]) labs)]
+  end.
+
+Definition run_map (tag : ustr) (args : list sexp) : option sexp :=
+  if tag_is tag "mat" then
+    match args with
+    | [c; s; d] => do c' <- de_cfg c; do s' <- de_listof de_source s; do d' <- de_doc d; Some (sx_result (engine_lines c' s' d'))
+    | _ => None
+    end
+  else if tag_is tag "spec" then
+    match args with
+    | [c; s; d] => do c' <- de_cfg c; do s' <- de_listof de_source s; do d' <- de_doc d; Some (L [A (u "ok"); sx_strs (spec_case_lines c' s' d')])
+    | _ => None
+    end
+  else if tag_is tag "rules" then
+    match args with
+    | [d] => do d' <- de_doc d;
+             Some (match normalise d' with Ok rs => L [A (u "ok"); L (map sx_rule rs)] | Err e => L [A (u "error"); A (err_name e)] end)
+    | _ => None
+    end
+  else if tag_is tag "partition" then
+    match args with
+    | [A mode; d] => do d' <- de_doc d;
+        Some (match normalise d' with
+              | Ok rs => if tag_is mode "pa" then sx_labels (pa_labels rs) else if tag_is mode "max" then sx_labels (max_labels rs)
+                         else sx_labels (Some (map (fun r => (r_id r, [])) rs))
+              | Err e => L [A (u "error"); A (err_name e)]
+              end)
+    | _ => None
+    end
+  else None.
+
+Fixpoint first_some {T} (l : list (option T)) : option T :=
+  match l with [] => None | Some x :: _ => Some x | None :: r => first_some r end.
+
 Definition run_case (x : sexp) : sexp :=
   match x with
   | L (A tag :: args) =>
-      match run_c20 tag args with
+      match first_some [run_c20 tag args; run_map tag args] with
       | Some r => r
       | None => sx_err (u "bad-case")
       end
